@@ -720,18 +720,45 @@ def b_abs(ip, args, kw, ctx):
     return simp(z3.If(v < 0, -v, v))
 
 
+def _stepper(ip, v, ctx):
+    """yields the elements of v one at a time; a generator expression is stepped lazily (consumers that stop early do not
+    evaluate the remaining elements)"""
+    from .sym import LazyList
+    if isinstance(v, LazyList):
+        while True:
+            ok, x = v.step()
+            if not ok:
+                return
+            yield x
+    else:
+        yield from ip.iterate(v, ctx)
+
+
 def b_any(ip, args, kw, ctx):
-    for x in ip.iterate(args[0], ctx):
+    for x in _stepper(ip, args[0], ctx):
         if ctx.branch(ip.truth(x, ctx)):
             return True
     return False
 
 
 def b_all(ip, args, kw, ctx):
-    for x in ip.iterate(args[0], ctx):
+    for x in _stepper(ip, args[0], ctx):
         if not ctx.branch(ip.truth(x, ctx)):
             return False
     return True
+
+
+def b_next(ip, args, kw, ctx):
+    from .sym import LazyList
+    it = args[0]
+    if not isinstance(it, LazyList):
+        raise _uns("next() on something that is not a generator expression")
+    ok, x = it.step()
+    if ok:
+        return x
+    if len(args) > 1:
+        return args[1]
+    _raise("StopIteration", "")
 
 
 def b_zip(ip, args, kw, ctx):
@@ -866,6 +893,12 @@ def b_re_match(ip, args, kw, ctx):
             return None
         return _I().EnvObj("match", groups=[m.group(0)] + list(m.groups()))
     raise _uns("re.match on symbolic text")
+
+
+def b_re_compile(ip, args, kw, ctx):
+    if kw or len(args) != 1 or not isinstance(args[0], str):
+        raise _uns("re.compile with flags or a non-literal pattern")
+    return _I().EnvObj("re_pattern", pattern=args[0])
 
 
 def b_time_time(ip, args, kw, ctx):
@@ -1127,6 +1160,15 @@ def env_method(ip, o, name, args, kw, ctx):
         if name == "getEffectiveLevel":
             return [10, 20, 30, 40, 50][ctx.fork(5)]
         return NotImplemented
+    if o.kind == "re_pattern":
+        # a compiled pattern: pattern.match(text) == re.match(pattern_source, text) (the current re.match model, whichever it is)
+        if name == "match" and not kw and len(args) == 1:
+            return ip.ext_models["re.match"].fn(ip, [o.state["pattern"], args[0]], {}, ctx)
+        if name == "__bool__":
+            return True
+        if name == "__getattr__":
+            return NotImplemented
+        raise _uns(f"{name} on a compiled pattern")
     if o.kind == "match":
         if name == "group":
             i = args[0] if args else 0
@@ -1161,7 +1203,7 @@ def install(ip):
         ("list", b_list, list), ("tuple", b_tuple, tuple), ("dict", b_dict, dict), ("set", b_set, set),
         ("sum", b_sum, None), ("sorted", b_sorted, None), ("min", b_min, None), ("max", b_max, None),
         ("range", b_range, None), ("bytes", b_bytes, bytes), ("bool", b_bool, bool), ("abs", b_abs, None),
-        ("any", b_any, None), ("all", b_all, None), ("zip", b_zip, None), ("enumerate", b_enumerate, None),
+        ("any", b_any, None), ("all", b_all, None), ("next", b_next, None), ("zip", b_zip, None), ("enumerate", b_enumerate, None),
         ("hash", b_hash, None), ("chr", b_chr, None), ("ord", b_ord, None), ("print", b_noop, None),
     ]:
         b[name] = B(name, fn, pt)
@@ -1177,6 +1219,7 @@ def install(ip):
     e["warnings.warn"] = B("warn", b_warn)
     e["textwrap.wrap"] = B("wrap", b_wrap)
     e["re.match"] = B("re.match", b_re_match)
+    e["re.compile"] = B("re.compile", b_re_compile)
     e["logging.getLogger"] = B("getLogger", b_getLogger)
     for lname, lv in (("DEBUG", 10), ("INFO", 20), ("WARNING", 30), ("ERROR", 40), ("CRITICAL", 50)):
         e["logging." + lname] = lv
